@@ -242,8 +242,11 @@ CanonField(env, log, id, p, fld) ==
       nodeStr(v) == IF "node" \in DOMAIN v THEN CanonInst(env, log, v.node)
                     ELSE IF "user" \in DOMAIN v THEN "PWord{W=" \o Q(v.user) \o "}" ELSE "?"
   IN CASE kind = "string" -> Q(JoinSeq([i \in 1..Len(ws) |-> JoinStr(ws[i].vals, 1)], 1, ""))
+       \* *string: allocated by the first capture that is applied (even an empty one), nil otherwise
+       [] kind = "pstring" -> IF Len(ws) = 0 THEN "nil" ELSE Q(JoinSeq([i \in 1..Len(ws) |-> JoinStr(ws[i].vals, 1)], 1, ""))
        \* "capt": a field of a user type implementing participle.Capture that appends what it is given (like []string)
-       [] kind \in {"strings", "capt"} -> LET fv == FlatVals(ws, 1) IN "[" \o JoinSeq([j \in 1..Len(fv) |-> Q(fv[j].s)], 1, ",") \o "]"
+       \* "textu": the same for encoding.TextUnmarshaler (called once per captured value)
+       [] kind \in {"strings", "capt", "textu"} -> LET fv == FlatVals(ws, 1) IN "[" \o JoinSeq([j \in 1..Len(fv) |-> Q(fv[j].s)], 1, ",") \o "]"
        [] IsNumSlice(kind) -> (LET fv == FlatVals(ws, 1) IN "[" \o JoinSeq([j \in 1..Len(fv) |-> env.g.conv[ElemKind(kind)][fv[j].s]], 1, ",") \o "]")
        [] IsNum(kind) -> (LET nz == SelectSeq(ws, LAMBDA w : Len(w.vals) > 0) IN
                           IF Len(nz) = 0 THEN "0" ELSE env.g.conv[kind][JoinVals(nz[Len(nz)].vals, 1)])
@@ -256,7 +259,9 @@ CanonField(env, log, id, p, fld) ==
             ELSE LET w == ws[Len(ws)] IN
                  "[" \o JoinSeq([i \in 1..(w.to - w.from) |-> "tok" \o NatStr(w.from + i - 1)], 1, ",") \o "]"
        [] OTHER ->
-            LET single == kind = "node" \/ kind = "union" \/ kind = "unode" IN
+            \* "cnode(s)": a field of an interface type whose production is user code registered with ParseTypeWith (it takes one
+            \* token, like the Parseable child "unode")
+            LET single == kind = "node" \/ kind = "union" \/ kind = "unode" \/ kind = "cnode" IN
             IF single
             THEN LET nz == SelectSeq(ws, LAMBDA w : Len(w.vals) > 0) IN
                  IF Len(ws) = 0 THEN "nil"
